@@ -177,6 +177,21 @@ def cases_poses(seed, tier):
         for q in LOC:
             w = hg.from_local(T, q)
             out.append({"rel": "mirror", "frame": P[i], "point": [float(w[0]), float(w[1]), float(w[2]), 0.0, 0.0, 0.0]})
+    # pairs that differ by a pure translation (bit-identical rotation vectors), and near-coincident pairs (gap 4e-7)
+    for i in range(n):
+        a = P[i]
+        for shift in ([0.4, -0.3, 0.2], [3e-7, -2e-7, 1e-7]):
+            b = [a[0] + shift[0], a[1] + shift[1], a[2] + shift[2]] + list(a[3:])
+            out.append({"rel": "twist", "a": a, "b": b})
+            out.append({"rel": "arcdist", "a": a, "b": b})
+            out.append({"rel": "midpoint", "a": a, "b": b})
+            for d in STEP_SIZES:
+                out.append({"rel": "lingap", "a": a, "b": b, "delta": d})
+    # a frame OBJECT used, re-posed in place through one of the transform's writers, and used again
+    for i in range(n):
+        for j in range(n):
+            if i != j:
+                out.append({"rel": "reposed", "a": P[i], "b": P[j], "point": P[(i + j + 1) % n], "how": ("sTM", "setQuat", "sTAA", "slices")[(i + 2 * j) % 4]})
     for i in range(n):
         for j in range(n):
             a, b = P[i], P[j]
@@ -389,6 +404,42 @@ def rel_mirror(c, r):
     back = out6(call(fsr.mirror, mk(c["frame"]), m), "mirror")[:3]
     r.chk("mirror_involution", amax(back - p), TOL, {"twice": back, "point": p})
     return abs(loc[2]) > 1e-6
+
+
+def rel_reposed(c, r):
+    """History on one frame object: helpers are asked with the frame at pose A, the SAME object is re-posed to B through a
+    writer of the transform class, the helpers are asked again and must answer for B."""
+    from scipy.spatial.transform import Rotation as Rsc
+    fsr = lib()["fsr"]
+    A, B = np.array(c["a"], float), np.array(c["b"], float)
+    TB = se3.T_from_taa(B)
+    p = np.array(c["point"][:3], float)
+    F = mk(A)
+    call(fsr.mirror, F, mk(c["point"]))
+    call(fsr.twistToGoal, F, mk(c["point"]))
+    call(fsr.planePointsFromTransform, F)
+    call(fsr.arcDistance, F, mk(c["point"]))
+    how = c["how"]
+    if how == "sTM":
+        call(F.sTM, TB.copy())
+    elif how == "sTAA":
+        call(F.sTAA, B.reshape(6, 1).copy())
+    elif how == "setQuat":
+        call(F.setQuat, Rsc.from_rotvec(B[3:]).as_quat())
+        call(F.__setitem__, slice(0, 3), [float(x) for x in B[:3]])
+    else:
+        call(F.__setitem__, slice(3, 6), [float(x) for x in B[3:]])
+        call(F.__setitem__, slice(0, 3), [float(x) for x in B[:3]])
+    pm = out6(call(fsr.mirror, F, mk(c["point"])), "mirror")[:3]
+    r.chk("reposed_frame_mirror", amax(pm - hg.reflect_across_frame_xy(TB, p)), TOL, {"impl": pm, "oracle": hg.reflect_across_frame_xy(TB, p)},
+          {"pi_minus_angle": PI - se3.rangle(TB[:3, :3])})
+    Tg = se3.T_from_taa(c["point"])
+    V = outv(call(fsr.twistToGoal, F, mk(c["point"])), 6, "twistToGoal")
+    r.chk("reposed_frame_twist", amax(se3.exp6(V) @ TB - Tg), TOL, {"twist": V}, {"pi_minus_angle": PI - se3.rangle(Tg[:3, :3] @ TB[:3, :3].T)})
+    d1 = float(np.asarray(call(fsr.arcDistance, F, mk(c["point"])), float).reshape(-1)[0])
+    d2 = float(np.asarray(call(fsr.arcDistance, mk(B), mk(c["point"])), float).reshape(-1)[0])
+    r.chk("reposed_frame_arcdistance", abs(d1 - d2), TOL, {"reposed": d1, "fresh": d2})
+    return True
 
 
 def rel_midpoint(c, r):
@@ -709,7 +760,7 @@ def rel_numjac(c, r):
     return True
 
 
-RELS = {"mirror": rel_mirror, "midpoint": rel_midpoint, "lookat": rel_lookat, "plane3": rel_plane3, "planeT": rel_planeT,
+RELS = {"reposed": rel_reposed, "mirror": rel_mirror, "midpoint": rel_midpoint, "lookat": rel_lookat, "plane3": rel_plane3, "planeT": rel_planeT,
         "metric": rel_metric, "arcdist": rel_arcdist, "lingap": rel_lingap, "arcgap": rel_arcgap, "ikpath": rel_ikpath,
         "twist": rel_twist, "twistT": rel_twistT, "unitvec": rel_unitvec, "sphere": rel_sphere, "angle": rel_angle,
         "chainjac": rel_chainjac, "numjac": rel_numjac}
